@@ -220,7 +220,7 @@ def render(d: dict[str, Any]) -> str:
         iparts = ["self"] + (["*"] if kwonly and ps else []) + [
             p["n"] + (f"={p['default']}" if p.get("default") is not None else "") for p in ps
         ]
-        impl.append(f"    def {m['name']}({', '.join(iparts)}):")
+        impl.append(f"    def {m['name']}({', '.join(iparts)})" + (f" -> {ret}:" if m["kind"] != "unary" else ":"))
         impl.append("        raise RuntimeError('not called')")
     if not d["methods"]:
         out.append("    pass")
@@ -343,6 +343,8 @@ def bases(thorough: bool) -> Iterator[dict[str, Any]]:
         yield svc([_inst(ts[i], 0)])
     for i in range(n):
         for j in range(i, n):
+            if not thorough and (i + j) % 2:
+                continue  # quick tier: half of the 2-method combinations
             yield svc([_inst(ts[i], 0), _inst(ts[j], 1)], version="1.2.3" if (i + j) % 3 == 0 else None)
     if thorough:
         for i in range(n):
